@@ -289,7 +289,26 @@ def per_instance(ctx) -> None:
     ctx.check(not missing, 'R-PERINSTANCE', ex.ref, f'every attribute the executor mutates is bound per instance in __init__ (not bound there: {missing}; examined {n} class-level containers in the serving scope)', key='Executor:init-bound', loc=ex.module.relpath)
 
 
+def descriptor_cache(ctx) -> None:
+    """Every request is served by the descriptor of *its own* application: the cache is read and written under the key
+    `application` only, an unknown application is refused (MissingError) after one refresh of the inventory listing, a known
+    one is loaded on first use, and what is returned is the cache entry of that same key."""
+    prog = ctx.prog
+    fn = prog.func(f'{DISPATCH}:Wrapper._get_descriptor')
+    app = fn.param_names[1]
+    U = shared.stmt_under
+    miss = (f'{app} not in self._descriptors', True)
+    U(ctx, 'C16.descriptor', fn, 'self._descriptors.update({a: None for a in updates})', [miss], 'newly listed applications are registered (unloaded) when an unknown name arrives', 'descriptor:register', inlined=False, siblings=False)
+    rs = [r for r in core.walk_local(fn.node) if isinstance(r, ast.Raise)]
+    ctx.check(len(rs) == 1 and 'MissingError' in core.src(rs[0]) and sorted(cfg.cguards(rs[0], fn.node)) == sorted([miss, (f'{app} not in updates', True)]), 'C16.descriptor', fn, 'an application absent from the refreshed listing is refused - alone', rs[0] if rs else fn.node, key='descriptor:unknown')
+    U(ctx, 'C16.descriptor', fn, f'self._descriptors[{app}] = self._inventory.get({app})', [(f'self._descriptors[{app}]', False)], 'a registered but unloaded descriptor is loaded on first use, under its own key', 'descriptor:load', inlined=False, siblings=False)
+    U(ctx, 'C16.descriptor', fn, f'return self._descriptors[{app}]', [], 'the caller gets the cache entry of its own application', 'descriptor:return', inlined=False, siblings=False)
+    up = [a for a in core.walk_local(fn.node) if isinstance(a, ast.Assign) and core.src(a.targets[0]) == 'updates']
+    ctx.check(len(up) == 1 and core.src(up[0].value) == 'set(self._inventory.list()).difference(self._descriptors)', 'C16.descriptor', fn, 'updates = listed applications not cached yet', up[0] if up else fn.node, key='descriptor:updates')
+
+
 def run(ctx) -> None:
+    descriptor_cache(ctx)
     per_instance(ctx)
     worker_loop(ctx)
     id_correlation(ctx)
